@@ -28,6 +28,17 @@ def record(alg, N):
                 g.get_voronoi_volumes()
                 g.get_voronoi_volumes(approx=True)
                 g.get_cell_borders(); g.get_center_distances(); g.get_voronoi_adjacency()
+            # ... and a caller converts the matrices / areas it was handed in place (degrees, normalised areas), as the package's
+            # own FullGrid.get_full_prefactors does with the border matrix it is handed: later answers must not change
+            if N % 3 == 0:
+                for getter, factor in (("get_cell_borders", 57.29577951308232), ("get_center_distances", 57.29577951308232),
+                                       ("get_voronoi_adjacency", 0)):
+                    m = getattr(g, getter)()
+                    if hasattr(m, "data") and getattr(m.data, "flags", None) is not None and m.data.flags.writeable:
+                        m.data[:] = (m.data * factor).astype(m.data.dtype)
+                a0 = g.get_voronoi_volumes()
+                if isinstance(a0, np.ndarray) and a0.flags.writeable:
+                    a0 /= a0.sum()
             adj = g.get_voronoi_adjacency().tocoo()
             bo = g.get_cell_borders().tocoo()
             di = g.get_center_distances().tocoo()
